@@ -122,6 +122,11 @@ func compareRender(c *ctx, rc *renderCase, s3spec bool) (renderOut, J, error) {
 	if impl.Get != "found" {
 		return impl, nil, nil
 	}
+	if h, ok := m["hyp"].(bool); ok && !h {
+		// the loaded trees must satisfy the hypotheses of RN.exec_refines_ref (unique node ids, attributes in the
+		// documented order with at most one `with`); if not, the theorem says nothing about this input
+		res.disagree(rc.toJ(), "hypotheses of exec_refines_ref", "violated by the loaded tree", "refinement hypotheses (Uniq / Sorted) do not hold")
+	}
 	mi := modelRun(m, "impl")
 	if mi.St == "fuel" {
 		res.S2Unsupported++
